@@ -1,6 +1,7 @@
 package props
 
 import (
+	"strings"
 	"encoding/json"
 	"fmt"
 	"testing"
@@ -52,6 +53,10 @@ type c10Case struct {
 	AllowOnly bool `json:"allow_only,omitempty"`
 	// HideSysctl: the process cannot see /proc/sys/kernel/seccomp (masked /proc/sys of a container)
 	HideSysctl bool `json:"hide_sysctl,omitempty"`
+	// PriorRefused (root, plain plans): earlier in the same process a load with thread-sync was refused by the kernel with
+	// EINVAL (a valid policy that compiles to more than 4096 instructions). What an earlier call was told is no input
+	// of this one.
+	PriorRefused bool `json:"prior_refused,omitempty"`
 	// GOARCH: build of the child ("" = amd64, 386)
 	GOARCH string `json:"goarch,omitempty"`
 	// EnosysFault: seccomp(2) fails with ENOSYS in the whole process (outer sandbox / old kernel).
@@ -92,6 +97,7 @@ func drawC10(t *rapid.T) c10Case {
 		c.GOMAXPROCS = []int{1, 1, 2}[rapid.IntRange(0, 2).Draw(t, "unlockedProcs")]
 	}
 	plain := !c.Divergent && !c.EnosysFault && !c.EinvalLog && !c.Unlocked
+	c.PriorRefused = plain && c.Uid == 0 && !c.Strace && rapid.IntRange(0, 5).Draw(t, "priorRefused") == 0
 	c.AllowOnly = plain && !c.LogGroup && rapid.IntRange(0, 5).Draw(t, "allowOnly") == 0
 	c.HideSysctl = plain && !c.Strace && c.Uid == 0 && rapid.IntRange(0, 5).Draw(t, "hideSysctl") == 0
 	var n int
@@ -180,6 +186,11 @@ func checkC10(raw json.RawMessage) (ev.Result, error) {
 		fault = kjob.Step{Op: "outer-enosys"}
 	case c.EinvalLog:
 		fault = kjob.Step{Op: "outer-einval-log"}
+	case c.PriorRefused:
+		if c.Uid != 0 || c.Unlocked || c.Strace {
+			return ev.Result{}, ev.Inconclusivef("the refused earlier load is combined with plain root plans without strace only")
+		}
+		fault = kjob.Step{Op: "load", Thread: 1, Filter: &kjob.FilterSpec{Policy: c09PolicyFor(archName, c09Op{Kind: "oversize"}), NNP: false, Flag: 1 | c.Flag&2, HostArch: true}}
 	}
 	pol := c10PolicyFor(archName)
 	if c.LogGroup {
@@ -255,6 +266,12 @@ func checkC10(raw json.RawMessage) (ev.Result, error) {
 	}
 	if c.LogGroup {
 		res.Classes = append(res.Classes, "policy-with-log-action")
+	}
+	if c.PriorRefused {
+		if pl := rr.Find(2, "load"); len(pl) != 1 || pl[0].Nil || !strings.Contains(pl[0].Err, "invalid argument") {
+			return res, ev.Inconclusivef("the earlier oversize load was not refused with EINVAL")
+		}
+		res.Classes = append(res.Classes, "earlier-thread-sync-load-refused-with-EINVAL")
 	}
 	if c.EnosysFault {
 		if oe := rr.Find(2, "outer-enosys"); len(oe) != 1 || oe[0].Err != "" {
